@@ -393,9 +393,9 @@ class IndexedSet(MutableSet):
         "iterate over a slice of the set"
         iterable = self
         if start is not None and start < 0:
-            start += len(self)
+            start = max(start + len(self), 0)
         if stop is not None and stop < 0:
-            stop += len(self)
+            stop = max(stop + len(self), 0)
         if step is not None and step < 0:
             step = -step
             iterable = reversed(self)
